@@ -53,6 +53,13 @@ pub fn judge_script<V: Variant>(stream: Stream, script: &Script, cache: &Mutex<H
     }
     match rd.first_hard {
         None => {
+            // the helper must drive the reader to the end of the stream: a short read is not EOF
+            if !rd.saw_eof && rd.pos < script.total {
+                return Err(format!(
+                    "{}: hash_stream stopped after {delivered} of {} bytes although the reader reported neither end of stream (a 0-byte read) nor an error",
+                    V::NAME, script.total
+                ));
+            }
             let expect = expected_for::<V>(stream, delivered, cache);
             match (&res, &expect) {
                 (Ok(h), Ok(b)) if V::to_bytes(h) == *b => Ok((0, consumed)),
